@@ -24,7 +24,7 @@ type Opts struct {
 var AllFeatures = []string{
 	"async", "err", "multi", "bind", "struct", "value", "sets", "lit", "ext", "ctxparam",
 	"composite", "basic", "args", "unneeded", "multi-inj", "multi-file", "dupparam",
-	"generic", "variadic", "variadic-functype", "want-unsupplied", "kalias", "extalias", "value-and-pointer", "rewrap", "struct-both-forms", "alias-basic", "ctx-provider", "implements-error", "adv-pkg-shadowed-by-later-decl", "value-literal", "multi-var-sets", "ext-method-value", "err-alias", "arg-ext-type", "arg-hidden-ext", "set-ref-paren", "set-decl-paren", "set-alias-var", "elem-paren", "elem-hoisted-var", "inject-spelling", "prov-func-var",
+	"generic", "variadic", "variadic-functype", "want-unsupplied", "kalias", "extalias", "value-and-pointer", "rewrap", "struct-both-forms", "alias-basic", "ctx-provider", "implements-error", "adv-pkg-shadowed-by-later-decl", "value-literal", "multi-var-sets", "ext-method-value", "err-alias", "local-provider-ext-result", "arg-ext-type", "arg-hidden-ext", "set-ref-paren", "set-decl-paren", "set-alias-var", "elem-paren", "elem-hoisted-var", "inject-spelling", "prov-func-var",
 	"async-struct", "ptrrecv", "aiface", "embedded",
 }
 
@@ -65,6 +65,7 @@ type gen struct {
 	pending  map[TypeID]bool
 	roots    int // the first `roots` units take no provided inputs (fork), the last unit joins
 	errAliasDeclared bool
+	preferWant TypeID // an interface bound to a local provider's external result: a good requested type
 	hiddenArg map[TypeID]bool // argument types of the hidden external package (only ext providers may take them)
 	wide     bool // fan shape: every inner unit takes at most one of the first supplied types, the last unit joins all
 }
@@ -817,6 +818,7 @@ func (g *gen) genUnit(i int) {
 	if g.want("multi", "multi", 20) {
 		nRes = rapid.IntRange(2, 3).Draw(g.rt, "nres")
 	}
+	locExt := false
 	for k := 0; k < nRes; k++ {
 		var t TypeID
 		if k == 0 && !extForm && g.allow("struct") && rapid.IntRange(0, 99).Draw(g.rt, "withfields") < 18 {
@@ -825,6 +827,12 @@ func (g *gen) genUnit(i int) {
 			if rapid.Bool().Draw(g.rt, "fieldsptr") {
 				t = g.addType(Type{Kind: KPtr, Elem: s})
 			}
+		} else if k == 0 && !extForm && p.Form == "func" && g.allow("ext") && g.want("local-provider-ext-result", "locext", 10) {
+			// a provider of the user package whose result type lives in another package: the
+			// declaration file need not mention that package anywhere
+			e := g.ensureExt()
+			t = g.addType(Type{Kind: KPtr, Elem: g.newStruct(e.Key, false)})
+			locExt = true
 		} else {
 			t = g.freshValueType(extForm, "restype")
 		}
@@ -865,17 +873,20 @@ func (g *gen) genUnit(i int) {
 	// interface binding
 	for ri, rtID := range p.Results {
 		st := g.c.StructOf(rtID)
-		if st == nil || st.Pkg != "" || len(e.Bind) > 0 {
+		if st == nil || (st.Pkg != "" && !locExt) || len(e.Bind) > 0 {
 			continue
 		}
 		if st.PtrRecv && g.c.T(rtID).Kind != KPtr {
 			continue
 		}
 		_ = ri
-		if g.want("bind", "bind", 30) {
+		if locExt && rapid.Bool().Draw(g.rt, "locext-bind") || g.want("bind", "bind", 30) {
 			it := g.addType(Type{Kind: KIface, Name: g.typeName("I"), Impl: rtID, Method: ""})
 			g.c.Types[int(it)].Method = "VH" + g.c.T(it).Name
 			e.Bind = append(e.Bind, it)
+			if locExt {
+				g.preferWant = it // requested through the interface, the other package is mentioned nowhere else
+			}
 			if e.Async && rapid.Bool().Draw(g.rt, "asyncinner") {
 				e.AsyncInner = true
 			}
@@ -1149,6 +1160,13 @@ func (g *gen) genGroupsAndInjectors() {
 				j = rapid.IntRange(0, len(cands)-1).Draw(g.rt, "want")
 			}
 			inj.Want = cands[len(cands)-1-j]
+			if g.preferWant != 0 && rapid.Bool().Draw(g.rt, "want-preferred") {
+				for _, t := range cands {
+					if t == g.preferWant {
+						inj.Want = t
+					}
+				}
+			}
 		}
 		f := 0
 		if nFiles > 1 {
